@@ -55,6 +55,17 @@ Check C03_reject : forall (pre post l : str),
   bad_line l = true ->
   from_str (pre ++ l ++ [LF] ++ post) = Err 1%N.
 Print Assumptions C03_reject.
+(* ... and likewise when it is the last line and has no line end ("final newline optional"). *)
+Theorem C03_reject_last : forall (pre l : str),
+  (pre = [] \/ exists p, pre = p ++ [LF]) ->
+  bad_line l = true ->
+  from_str (pre ++ l) = Err 1%N.
+Proof. exact C03_reject_last_all. Qed.
+Check C03_reject_last : forall (pre l : str),
+  (pre = [] \/ exists p, pre = p ++ [LF]) ->
+  bad_line l = true ->
+  from_str (pre ++ l) = Err 1%N.
+Print Assumptions C03_reject_last.
 Example C03_ex_bad_lines :
   bad_line [45; 120]%N = true /\ bad_line [102; 111; 111; 32; 98]%N = true /\       (* "-x", "foo b" *)
   bad_line [58; 97]%N = true /\ bad_line [233]%N = true /\                          (* ":a", U+00E9 *)
